@@ -205,3 +205,80 @@ func TestC18Client(t *testing.T) {
 		}
 	})
 }
+
+// genTie draws a C12-world case in coincidence mode: responses, Close and failing writes land
+// exactly on retransmission timer instants.
+func genTie(rt *rapid.T) *C12Case {
+	c := &C12Case{CloseAtMs: -1, Tie: true}
+	c.RTOms = rapid.SampledFrom([]int{1, 2, 10, 100, 200}).Draw(rt, "rto")
+	sched, failAt := schedule(rtoOf(c))
+	instants := append(append([]time.Duration{}, sched...), failAt)
+	ntx := rapid.IntRange(1, 3).Draw(rt, "ntx")
+	for i := 0; i < ntx; i++ {
+		tx := Tx{WriteFailAt: -1, RespTo: -1, Kind: rapid.SampledFrom([]string{"binding", "raw", "raw"}).Draw(rt, "kind"), Lost: make([]bool, 7)}
+		switch rapid.IntRange(0, 3).Draw(rt, "mode") {
+		case 0: // the response to transmission k arrives exactly when timer k+1.. fires
+			k := rapid.IntRange(0, 6).Draw(rt, "k")
+			j := rapid.IntRange(k+1, 7).Draw(rt, "j")
+			tx.RespTo = k
+			tx.RespDelayMs = int((instants[j] - instants[k]) / time.Millisecond)
+			tx.Dup = rapid.Bool().Draw(rt, "dup")
+		case 1: // a write fails at transmission k (k >= 1: on the timer goroutine)
+			tx.WriteFailAt = rapid.IntRange(1, 6).Draw(rt, "failAt")
+		case 2: // both
+			tx.WriteFailAt = rapid.IntRange(1, 6).Draw(rt, "failAt")
+			tx.RespTo = 0
+			tx.RespDelayMs = int(instants[tx.WriteFailAt] / time.Millisecond)
+		}
+		c.Txs = append(c.Txs, tx)
+	}
+	if rapid.IntRange(0, 3).Draw(rt, "close") > 0 {
+		c.CloseAtMs = int(instants[rapid.IntRange(1, 7).Draw(rt, "closeK")] / time.Millisecond)
+	}
+
+	return c
+}
+
+func TestC18Ties(t *testing.T) {
+	r := vkit.Start(t, "C18")
+	defer r.Finish()
+	r.Assume("coincidence mode: same-instant events run on separate goroutines in real parallel; outcomes are judged order-insensitively (returns once, right response or error, no hang, no panic, empty table)")
+	do := func(c *C12Case, sample string) (string, string) {
+		r.Eval(1)
+		r.NonTrivial(vkit.Hash64(c))
+		r.Label("transaction-ties")
+		if sample != "" {
+			r.Sample(sample, func() any { return c })
+		}
+		res := runC12(t, c)
+		if res.kind != "" && r.IsKnown("C18."+res.kind) {
+			return "", ""
+		}
+
+		return res.kind, res.msg
+	}
+	if r.Replay != "" {
+		var c C12Case
+		if err := vkit.LoadJSON(r.Replay, &c); err != nil || !c.Tie {
+			fmt.Println("REPLAY-NOT-MINE: not a tie case")
+
+			return
+		}
+		kind, msg := do(&c, "")
+		fmt.Printf("replay %s: kind=%q %s\n", r.Replay, kind, msg)
+		if kind != "" {
+			r.Violate(kind, msg, &c)
+		}
+
+		return
+	}
+	r.Rapid(t, "ties", 0, r.Checks, func(rt *rapid.T) {
+		c := genTie(rt)
+		r.Journal(c)
+		kind, msg := do(c, "ties")
+		if kind != "" {
+			r.NoteFail(kind, msg, c)
+			rt.Fatalf("C18 %s", kind)
+		}
+	})
+}
